@@ -177,6 +177,26 @@ Qed.
 (* ------------------------------------------------------------------ *)
 (** * Ledger lemmas for every policy *)
 
+
+Lemma removelast_last_cnt x (l : list item) d : l <> [] ->
+  cnt x (map iid l) = cnt x (map iid (removelast l)) + ind x (iid (last l d)).
+Proof.
+  intros H. rewrite (app_removelast_last d H) at 1. rewrite map_app, cnt_app. cbn. unfold ind. lia.
+Qed.
+
+Lemma removelast_last_len (l : list item) : l <> [] -> zlen l = zlen (removelast l) + 1.
+Proof.
+  intros H. rewrite (app_removelast_last (MkItem 0 0 0 0 0) H) at 1. rewrite zlen_app, zlen_cons.
+  change (zlen (@nil item)) with 0. lia.
+Qed.
+
+Lemma firstn_skipn_cnt x n (r : list item) :
+  cnt x (map iid r) = cnt x (map iid (skipn n r)) + cnt x (map iid (firstn n r)).
+Proof. rewrite <- (firstn_skipn n r) at 1. rewrite map_app, cnt_app. lia. Qed.
+
+Lemma firstn_skipn_len n (r : list item) : zlen r = zlen (skipn n r) + zlen (firstn n r).
+Proof. rewrite <- (firstn_skipn n r) at 1. rewrite zlen_app. lia. Qed.
+
 Lemma pol_ids_eids_prio cap ctr h : pol_ids (PPrio cap ctr h) = eids h.
 Proof. reflexivity. Qed.
 
@@ -184,7 +204,7 @@ Lemma push_accept_cnt x balk it : forall s s',
   pol_push balk it s = (s', true) ->
   cnt x (pol_ids s') = ind x (iid it) + cnt x (pol_ids s).
 Proof.
-  induction s as [cap l|cap l|cap ctr h|cap ctr h st|maxf pfc fl total st|cap pfc fl total st|thr b i IH];
+  induction s as [cap l|cap l|cap ctr h|cap ctr h st|maxf pfc fl total st|cap pfc fl total st|thr b i IH|rcap l st|cap l sched st|athr cap l wasc st];
     cbn [pol_push]; intros s' H.
   - destruct (cap_full cap (zlen l)); inversion H; subst. cbn. rewrite map_app, cnt_app. cbn. unfold ind. lia.
   - destruct (cap_full cap (zlen l)); inversion H; subst. reflexivity.
@@ -208,12 +228,15 @@ Proof.
     rewrite wids_app, cnt_app. cbn. lia.
   - destruct ((thr <=? pol_len i) && balk); [inversion H|].
     destruct (pol_push balk it i) as [i' ok] eqn:E. inversion H; subst. cbn [pol_ids]. eauto.
+  - destruct (rcap <=? zlen l); [inversion H|]. destruct balk; inversion H; subst. cbn. rewrite map_app, cnt_app. cbn. unfold ind. lia.
+  - destruct (cap_full cap (zlen l)); inversion H; subst. cbn. rewrite map_app, cnt_app. cbn. unfold ind. lia.
+  - destruct (cap_full cap (zlen l)); inversion H; subst. cbn. rewrite map_app, cnt_app. cbn. unfold ind. lia.
 Qed.
 
 Lemma push_reject_cnt x balk it : forall s s',
   pol_push balk it s = (s', false) -> cnt x (pol_ids s') = cnt x (pol_ids s).
 Proof.
-  induction s as [cap l|cap l|cap ctr h|cap ctr h st|maxf pfc fl total st|cap pfc fl total st|thr b i IH];
+  induction s as [cap l|cap l|cap ctr h|cap ctr h st|maxf pfc fl total st|cap pfc fl total st|thr b i IH|rcap l st|cap l sched st|athr cap l wasc st];
     cbn [pol_push]; intros s' H.
   - destruct (cap_full cap (zlen l)); inversion H; subst. reflexivity.
   - destruct (cap_full cap (zlen l)); inversion H; subst. reflexivity.
@@ -233,6 +256,9 @@ Proof.
     rewrite wids_app, cnt_app. cbn. lia.
   - destruct ((thr <=? pol_len i) && balk); [inversion H; subst; reflexivity|].
     destruct (pol_push balk it i) as [i' ok] eqn:E. inversion H; subst. cbn [pol_ids]. eauto.
+  - destruct (rcap <=? zlen l); [inversion H; subst; reflexivity|]. destruct balk; inversion H; subst. reflexivity.
+  - destruct (cap_full cap (zlen l)); inversion H; subst. reflexivity.
+  - destruct (cap_full cap (zlen l)); inversion H; subst. reflexivity.
 Qed.
 
 Lemma pop_cnt x now : forall s s' res ex,
@@ -240,7 +266,7 @@ Lemma pop_cnt x now : forall s s' res ex,
   cnt x (pol_ids s) = cnt x (pol_ids s') + cnt x (map iid ex)
                       + match res with Some it => ind x (iid it) | None => 0 end.
 Proof.
-  induction s as [cap l|cap l|cap ctr h|cap ctr h st|maxf pfc fl total st|cap pfc fl total st|thr b i IH];
+  induction s as [cap l|cap l|cap ctr h|cap ctr h st|maxf pfc fl total st|cap pfc fl total st|thr b i IH|rcap l st|cap l sched st|athr cap l wasc st];
     cbn [pol_pop]; intros s' res ex H.
   - destruct l as [|it l]; inversion H; subst; cbn; unfold ind; lia.
   - destruct l as [|it l]; inversion H; subst; cbn; unfold ind; lia.
@@ -257,6 +283,12 @@ Proof.
       change (flat_map (fun w => map iid (wf_q w)) fl') with (wids fl');
       change (flat_map (fun w => map iid (wf_q w)) (w0 :: fl0)) with (wids (w0 :: fl0)); lia.
   - destruct (pol_pop now i) as [[i' r] e] eqn:E. inversion H; subst. cbn [pol_ids]. eauto.
+  - destruct l as [|it l]; inversion H; subst; cbn; unfold ind; lia.
+  - destruct l as [|it l]; inversion H; subst; [cbn; lia|]. cbn [pol_ids map cnt].
+    rewrite (firstn_skipn_cnt x (Z.to_nat (hd 0 sched)) l). unfold ind. lia.
+  - destruct l as [|it0 l0]; [inversion H; subst; cbn; lia|].
+    pose proof (removelast_last_cnt x (it0 :: l0) it0 ltac:(discriminate)) as Hl.
+    destruct (athr <=? zlen (it0 :: l0)); inversion H; subst; cbn in Hl |- *; unfold ind in *; lia.
 Qed.
 
 (* ------------------------------------------------------------------ *)
@@ -383,7 +415,7 @@ Fixpoint pol_wf (s : pol) : Prop :=
 
 Lemma push_wf balk it : forall s s' ok, pol_wf s -> pol_push balk it s = (s', ok) -> pol_wf s'.
 Proof.
-  induction s as [cap l|cap l|cap ctr h|cap ctr h st|maxf pfc fl total st|cap pfc fl total st|thr b i IH];
+  induction s as [cap l|cap l|cap ctr h|cap ctr h st|maxf pfc fl total st|cap pfc fl total st|thr b i IH|rcap l st|cap l sched st|athr cap l wasc st];
     cbn [pol_push pol_wf]; intros s' ok Hw H.
   - destruct (cap_full cap (zlen l)); inversion H; subst; exact I.
   - destruct (cap_full cap (zlen l)); inversion H; subst; exact I.
@@ -413,11 +445,14 @@ Proof.
     + split; [rewrite wf_append_len by exact Hf; lia|apply wf_append_ok; exact Hok1].
   - destruct ((thr <=? pol_len i) && balk); [inversion H; subst; exact Hw|].
     destruct (pol_push balk it i) as [i' ok'] eqn:E. inversion H; subst. cbn [pol_wf]. eauto.
+  - destruct (rcap <=? zlen l); [inversion H; subst; exact I|]. destruct balk; inversion H; subst; exact I.
+  - destruct (cap_full cap (zlen l)); inversion H; subst; exact I.
+  - destruct (cap_full cap (zlen l)); inversion H; subst; exact I.
 Qed.
 
 Lemma pop_wf now : forall s s' r ex, pol_wf s -> pol_pop now s = (s', r, ex) -> pol_wf s'.
 Proof.
-  induction s as [cap l|cap l|cap ctr h|cap ctr h st|maxf pfc fl total st|cap pfc fl total st|thr b i IH];
+  induction s as [cap l|cap l|cap ctr h|cap ctr h st|maxf pfc fl total st|cap pfc fl total st|thr b i IH|rcap l st|cap l sched st|athr cap l wasc st];
     cbn [pol_pop pol_wf]; intros s' r ex Hw H.
   - destruct l; inversion H; subst; exact I.
   - destruct l; inversion H; subst; exact I.
@@ -431,11 +466,14 @@ Proof.
     pose proof (wfq_pop_len _ _ _ _ _ _ E) as Hl. pose proof (wfq_pop_ok _ _ _ _ _ _ E Hok) as Hok'.
     destruct r'; inversion H; subst; cbn [pol_wf]; split; auto; lia.
   - destruct (pol_pop now i) as [[i' r'] e'] eqn:E. inversion H; subst. cbn [pol_wf]. eauto.
+  - destruct l; inversion H; subst; exact I.
+  - destruct l; inversion H; subst; exact I.
+  - destruct l as [|it0 l0]; [inversion H; subst; exact I|]. destruct (athr <=? zlen (it0 :: l0)); inversion H; subst; exact I.
 Qed.
 
 Lemma pop_none_len now : forall s s' ex, pol_wf s -> pol_pop now s = (s', None, ex) -> pol_len s' = 0.
 Proof.
-  induction s as [cap l|cap l|cap ctr h|cap ctr h st|maxf pfc fl total st|cap pfc fl total st|thr b i IH];
+  induction s as [cap l|cap l|cap ctr h|cap ctr h st|maxf pfc fl total st|cap pfc fl total st|thr b i IH|rcap l st|cap l sched st|athr cap l wasc st];
     cbn [pol_pop pol_wf]; intros s' ex Hw H.
   - destruct l; inversion H; subst; reflexivity.
   - destruct l; inversion H; subst; reflexivity.
@@ -449,11 +487,14 @@ Proof.
     destruct r'; inversion H; subst. apply wfq_pop_none in E; [|exact Hok|lia].
     cbn [pol_len]. rewrite E. reflexivity.
   - destruct (pol_pop now i) as [[i' r'] e'] eqn:E. inversion H; subst. cbn [pol_len]. eauto.
+  - destruct l; inversion H; subst; reflexivity.
+  - destruct l; inversion H; subst; reflexivity.
+  - destruct l as [|it0 l0]; [inversion H; subst; reflexivity|]. destruct (athr <=? zlen (it0 :: l0)); inversion H.
 Qed.
 
 Lemma push_accept_len balk it : forall s s', pol_push balk it s = (s', true) -> pol_len s' = pol_len s + 1.
 Proof.
-  induction s as [cap l|cap l|cap ctr h|cap ctr h st|maxf pfc fl total st|cap pfc fl total st|thr b i IH];
+  induction s as [cap l|cap l|cap ctr h|cap ctr h st|maxf pfc fl total st|cap pfc fl total st|thr b i IH|rcap l st|cap l sched st|athr cap l wasc st];
     cbn [pol_push]; intros s' H.
   - destruct (cap_full cap (zlen l)); inversion H; subst. cbn [pol_len]. rewrite zlen_app, zlen_cons. change (zlen (@nil item)) with 0. lia.
   - destruct (cap_full cap (zlen l)); inversion H; subst. cbn [pol_len]. rewrite zlen_cons. lia.
@@ -467,11 +508,14 @@ Proof.
     match type of H with (if ?c then _ else _) = _ => destruct c end; inversion H; subst. reflexivity.
   - destruct ((thr <=? pol_len i) && balk); [inversion H|].
     destruct (pol_push balk it i) as [i' ok] eqn:E. inversion H; subst. cbn [pol_len]. eauto.
+  - destruct (rcap <=? zlen l); [inversion H|]. destruct balk; inversion H; subst. cbn [pol_len]. rewrite zlen_app, zlen_cons. change (zlen (@nil item)) with 0. lia.
+  - destruct (cap_full cap (zlen l)); inversion H; subst. cbn [pol_len]. rewrite zlen_app, zlen_cons. change (zlen (@nil item)) with 0. lia.
+  - destruct (cap_full cap (zlen l)); inversion H; subst. cbn [pol_len]. rewrite zlen_app, zlen_cons. change (zlen (@nil item)) with 0. lia.
 Qed.
 
 Lemma push_reject_len balk it : forall s s', pol_push balk it s = (s', false) -> pol_len s' = pol_len s.
 Proof.
-  induction s as [cap l|cap l|cap ctr h|cap ctr h st|maxf pfc fl total st|cap pfc fl total st|thr b i IH];
+  induction s as [cap l|cap l|cap ctr h|cap ctr h st|maxf pfc fl total st|cap pfc fl total st|thr b i IH|rcap l st|cap l sched st|athr cap l wasc st];
     cbn [pol_push]; intros s' H.
   - destruct (cap_full cap (zlen l)); inversion H; subst. reflexivity.
   - destruct (cap_full cap (zlen l)); inversion H; subst. reflexivity.
@@ -485,12 +529,15 @@ Proof.
     match type of H with (if ?c then _ else _) = _ => destruct c end; inversion H; subst. reflexivity.
   - destruct ((thr <=? pol_len i) && balk); [inversion H; subst; reflexivity|].
     destruct (pol_push balk it i) as [i' ok] eqn:E. inversion H; subst. cbn [pol_len]. eauto.
+  - destruct (rcap <=? zlen l); [inversion H; subst; reflexivity|]. destruct balk; inversion H; subst. reflexivity.
+  - destruct (cap_full cap (zlen l)); inversion H; subst. reflexivity.
+  - destruct (cap_full cap (zlen l)); inversion H; subst. reflexivity.
 Qed.
 
 Lemma pop_len now : forall s s' r ex, pol_pop now s = (s', r, ex) ->
   pol_len s = pol_len s' + zlen ex + match r with Some _ => 1 | None => 0 end.
 Proof.
-  induction s as [cap l|cap l|cap ctr h|cap ctr h st|maxf pfc fl total st|cap pfc fl total st|thr b i IH];
+  induction s as [cap l|cap l|cap ctr h|cap ctr h st|maxf pfc fl total st|cap pfc fl total st|thr b i IH|rcap l st|cap l sched st|athr cap l wasc st];
     cbn [pol_pop]; intros s' r ex H.
   - destruct l; inversion H; subst; cbn [pol_len]; rewrite ?zlen_cons; change (zlen (@nil item)) with 0; lia.
   - destruct l; inversion H; subst; cbn [pol_len]; rewrite ?zlen_cons; change (zlen (@nil item)) with 0; lia.
@@ -502,6 +549,14 @@ Proof.
     destruct (wfq_pop (2 * length (w0 :: fl0)) (w0 :: fl0) 0) as [[fl' r'] rm] eqn:E.
     destruct r'; inversion H; subst; cbn [pol_len]; change (zlen (@nil item)) with 0; lia.
   - destruct (pol_pop now i) as [[i' r'] e'] eqn:E. inversion H; subst. cbn [pol_len]. eauto.
+  - destruct l; inversion H; subst; cbn [pol_len]; rewrite ?zlen_cons; change (zlen (@nil item)) with 0; lia.
+  - destruct l as [|it l]; inversion H; subst; cbn [pol_len]; [change (zlen (@nil item)) with 0; lia|].
+    rewrite zlen_cons, (firstn_skipn_len (Z.to_nat (hd 0 sched)) l). lia.
+  - destruct l as [|it0 l0]; [inversion H; subst; cbn [pol_len]; change (zlen (@nil item)) with 0; lia|].
+    pose proof (removelast_last_len (it0 :: l0) ltac:(discriminate)) as Hl.
+    destruct (athr <=? zlen (it0 :: l0)); inversion H; subst; cbn [pol_len tl]; change (zlen (@nil item)) with 0.
+    + cbn [removelast] in Hl |- *. lia.
+    + rewrite zlen_cons. lia.
 Qed.
 
 Lemma len_nonneg : forall s, pol_wf s -> 0 <= pol_len s.
